@@ -9,3 +9,31 @@ def run(ctx: Ctx) -> None:
     ctx.floor("T19.copy", 8)
     ctx.floor("T19.dispatch", 50)
     ctx.floor("T19.index", 24)
+
+
+def mutants(prog):
+    from .common import source_sub
+    DI, DF = "deepali.data.image", "deepali.data.flow"
+    specs = []
+    for mod, cls in ((DI, "ImageBatch"), (DF, "FlowFields")):
+        specs += [
+            (f"{cls}: batch-length guard", mod, f"{cls}._torch_function_result", "and (data.shape[0] == len(grid)) and", "and", "T19."),
+            (f"{cls}: spatial-shape guard", mod, f"{cls}._torch_function_result", "and (data.shape[2:] == grid[0].shape)", "", "T19."),
+        ]
+    I = "ImageBatch._torch_function_grid"
+    specs += [
+        ("cat keeps first grids", DI, I, "return [g for grid in grids for g in grid]", "return grids[0]", "T19."),
+        ("split by size step", DI, I, "split_grids.append(grids[start:start + split_size_or_sections])", "split_grids.append(grids[:split_size_or_sections])", "T19."),
+        ("split sizes offset", DI, I, "split_grids.append(grids[start:start + num])\n                    start += num\n            return split_grids\n        if func in (torch.split_with_sizes", "split_grids.append(grids[start:start + num])\n            return split_grids\n        if func in (torch.split_with_sizes", "T19."),
+        ("tensor_split indices", DI, I, "for start, end in zip([0] + indices, indices + [len(grids)]):", "for start, end in zip(indices, indices[1:] + [len(grids)]):", "T19."),
+        ("tensor_split sections as size", DI, I, "num, rem = divmod(len(grids), tensor_indices_or_sections)", "num, rem = (tensor_indices_or_sections, 0)", "T19."),
+        ("getitem: sequence index takes first grid", DI, "ImageBatch.__getitem__", "grid = tuple((self._grid[i] for i in grid_index))", "grid = tuple((self._grid[0] for i in grid_index))", "T19."),
+        ("getitem: int index takes first grid", DI, "ImageBatch.__getitem__", "grid = self._grid[grid_index]", "grid = self._grid[0]", "T19."),
+        ("getitem: cropped spatial slices keep grid", DI, "ImageBatch.__getitem__", "if i.start not in (None, 0) or i.stop not in (None, n) or i.step not in (None, 1):", "if i.step not in (None, 1):", "T19."),
+        ("getitem: ellipsis returns first grid for all", DI, "ImageBatch.__getitem__", "return self._make_instance(self.tensor(), self._grid)", "return self._make_instance(self.tensor(), self._grid[:1])", "T19."),
+        ("iter: first grid", DI, "ImageBatch.__iter__", "yield self._make_subitem(data, self._grid[index])", "yield self._make_subitem(data, self._grid[0])", "T19."),
+        ("flow copy drops axes", DF, "FlowFields._make_instance", "axes or self._axes", "axes", "T19."),
+    ]
+    for name, mod, fn, old, new, expect in specs:
+        ov = source_sub(prog, mod, fn, old, new)
+        yield (name if ov is not None else name + " [spec does not apply]", ov, expect)
